@@ -122,11 +122,25 @@ def run_random(spec, rec):
                 # one schedule per case also switches between source lines
                 fine = (core.rng_for(seed, PROP, 'fine', idx), 0.08)
                 rec.count('fine_grained_runs')
-            res = H.run_controlled(case, strat, mon=mon, fine=fine)
-            if fine is None:
+            then = None
+            if sidx == 1 and not case.get('groups'):
+                # the same backend object and the same task objects are then
+                # scheduled again with other dependencies between them
+                rng2 = core.rng_for(seed, PROP, 'then', idx)
+                then = H.gen_dag(rng2, len(case['tasks']),
+                                 p_hard=rng2.choice([0.2, 0.5]),
+                                 p_soft=rng2.choice([0.0, 0.3]))
+                then['outcomes'] = H.gen_outcomes(rng2, then, KINDS)
+                then['workers'] = case['workers']
+                rec.count('backend_reused_for_another_graph')
+            res = H.run_controlled(dict(case), strat, mon=mon, fine=fine,
+                                   then=then)
+            if fine is None and then is None:
                 est = max(10, res.steps)
             extra = {'engine': 'controlled', 'choices': res.choices,
                      'hashseed': spec.get('hashseed', 0)}
+            if then is not None:
+                extra['then'] = then
             if not account(res, rec, case, extra):
                 continue
             rec.count('controlled_runs')
@@ -224,7 +238,8 @@ def replay(case, rec):
                 rec.violation(key, msg, case)
         return
     mon = H.Monitor()
-    res = H.run_controlled(case['case'], C.Replay(case['choices']), mon=mon)
+    res = H.run_controlled(case['case'], C.Replay(case['choices']), mon=mon,
+                           then=case.get('then'))
     for key, msg in res.start_violations:
         rec.violation(key, msg, case)
     rec.note('replayed', {'outcome': res.outcome, 'statuses': res.statuses,
